@@ -234,6 +234,9 @@ func checkC17(c *Ctx) {
 	checkSplitURL(c, pk)
 	checkResponsePrecedence(c, pk)
 	checkLoopTotality(c, "C17.R7.loop-totality", pk, "codescan", 40, codescanLoopExits)
+	checkTypeOfNil(c, "C17.R1.typeof-nil", pk)
+	checkAliasExpansionGuard(c, "C17.R1.alias-recursion", pk)
+	checkModelsRescanned(c, "C17.R8.models-rescanned", pk)
 
 	// ---- R2 regexp arity; R4 tagger agreement
 	taggers := collectTaggers(c, pk, m)
@@ -931,4 +934,120 @@ var codescanLoopExits = map[string]string{
 	"codescan.responseBuilder.buildFromStruct › loop over types.Struct.NumFields #1 › conditional store #1":        "‹string› != \"body\" ⇒ fields with `in: body` describe the response schema, the others are headers",
 	"codescan.responseBuilder.buildFromStruct › loop over types.Struct.NumFields #1 › conditional store #2":        "‹string› != \"body\" ⇒ same arm: the header is stored",
 	"codescan.schemaBuilder.buildFromInterface › loop over types.Interface.NumEmbeddeds #1 › conditional store #1": "!allOfMember(‹*ast.Field›.Doc) ⇒ embedded interface without swagger:allOf: inlined as an allOf member built from its methods",
+}
+
+
+// checkTypeOfNil: reflect.TypeOf(nil) is a nil Type; calling a method on it panics. Every
+// `reflect.TypeOf(E).M()` over a value that comes from source text (enum constants) is dominated by
+// `E != nil`.
+func checkTypeOfNil(c *Ctx, rule string, pk *packages.Package) {
+	c.Rule(rule, "a method is called on reflect.TypeOf(E) only under `E != nil`", 1)
+	info := pk.TypesInfo
+	n := 0
+	for _, fd := range load.AllFuncs(pk) {
+		fd := fd
+		goan.WalkGuards(info, fd.Body, func(nd ast.Node, guards []goan.Lit, _ []ast.Stmt) {
+			ast.Inspect(nd, func(m ast.Node) bool {
+				if _, isFn := m.(*ast.FuncLit); isFn {
+					return false
+				}
+				if bs, isBlock := m.(*ast.BlockStmt); isBlock && m != nd {
+					_ = bs
+					return false // nested statements are visited with their own guards
+				}
+				call, ok := m.(*ast.CallExpr)
+				if !ok {
+					return true
+				}
+				se, ok := call.Fun.(*ast.SelectorExpr)
+				if !ok {
+					return true
+				}
+				inner, ok := ast.Unparen(se.X).(*ast.CallExpr)
+				if !ok || len(inner.Args) != 1 {
+					return true
+				}
+				if fn := goan.Callee(info, inner); fn == nil || goan.CalleeName(fn) != "reflect.TypeOf" {
+					return true
+				}
+				arg := goan.ExprString(inner.Args[0])
+				n++
+				okG := false
+				for _, g := range guards {
+					if be, isB := ast.Unparen(g.E).(*ast.BinaryExpr); isB && g.Pos && be.Op == token.NEQ && goan.IsNil(info, be.Y) && goan.ExprString(be.X) == arg {
+						okG = true
+					}
+				}
+				c.Check(okG, rule, fmt.Sprintf("codescan.%s › reflect.TypeOf(%s).%s", load.FuncName(fd), arg, se.Sel.Name), c.posOf(pk, call.Pos()), "under "+arg+" != nil",
+					"reflect.TypeOf("+arg+") is nil when "+arg+" is nil (an enum constant whose literal could not be read): the method call panics and generate spec crashes")
+				return true
+			})
+		})
+	}
+	if n == 0 {
+		c.Unk(rule, "codescan › reflect.TypeOf(…).M()", "", "no such call found (anchor: schemaBuilder.buildFromType)")
+	}
+}
+
+
+// checkAliasExpansionGuard: while an alias declaration is built, buildFromType replaces a named type
+// by its underlying type and recurses; a type that refers to itself would be expanded forever. The arm
+// must test a visited set keyed by the type and insert the type before it recurses.
+func checkAliasExpansionGuard(c *Ctx, rule string, pk *packages.Package) {
+	c.Rule(rule, "the alias-expansion arm of buildFromType recurses on Underlying() only for a type that is not already being expanded (visited-set test in the condition, insertion before the call)", 1)
+	fd := load.FuncDecl(pk, "schemaBuilder.buildFromType")
+	if fd == nil {
+		c.Anchor(rule, "codescan.schemaBuilder.buildFromType", "not found")
+		return
+	}
+	info := pk.TypesInfo
+	n := 0
+	ast.Inspect(fd.Body, func(nd ast.Node) bool {
+		ifs, ok := nd.(*ast.IfStmt)
+		if !ok || !strings.Contains(goan.ExprString(ifs.Cond), "Assign.IsValid()") {
+			return true
+		}
+		// body recurses on Underlying()
+		var rec *ast.CallExpr
+		ast.Inspect(ifs.Body, func(m ast.Node) bool {
+			if call, ok := m.(*ast.CallExpr); ok && len(call.Args) >= 1 {
+				if fn := goan.Callee(info, call); fn != nil && fn.Name() == "buildFromType" && strings.HasSuffix(goan.ExprString(call.Args[0]), ".Underlying()") {
+					rec = call
+				}
+			}
+			return true
+		})
+		if rec == nil {
+			return true
+		}
+		n++
+		// condition: a negated lookup in a map
+		var visited ast.Expr
+		ast.Inspect(ifs.Cond, func(m ast.Node) bool {
+			if un, ok := m.(*ast.UnaryExpr); ok && un.Op == token.NOT {
+				if ix, ok := ast.Unparen(un.X).(*ast.IndexExpr); ok {
+					if _, isMap := info.TypeOf(ix.X).Underlying().(*types.Map); isMap {
+						visited = ix
+					}
+				}
+			}
+			return true
+		})
+		inserted := false
+		if visited != nil {
+			want := goan.ExprString(visited)
+			ast.Inspect(ifs.Body, func(m ast.Node) bool {
+				if as, ok := m.(*ast.AssignStmt); ok && len(as.Lhs) == 1 && as.Pos() < rec.Pos() && goan.ExprString(as.Lhs[0]) == want {
+					inserted = true
+				}
+				return true
+			})
+		}
+		c.Check(visited != nil && inserted, rule, "codescan.schemaBuilder.buildFromType › alias expansion stops at a type that is being expanded", c.posOf(pk, ifs.Pos()), "visited-set test and insertion before the recursive call",
+			"while an alias declaration is built every named type is replaced by its underlying type without remembering which ones are being expanded: a struct that refers to itself (Next *Inner) recurses until the stack overflows")
+		return true
+	})
+	if n == 0 {
+		c.Unk(rule, "codescan.schemaBuilder.buildFromType › alias expansion arm", c.posOf(pk, fd.Pos()), "no arm testing Assign.IsValid() and recursing on Underlying() found")
+	}
 }
